@@ -114,6 +114,12 @@ pub fn build(a: &LensArgs) -> LensCfg {
             cfg.codes = codes(&[New, Dup, Drop, Store, Take, Collect, Register, Clean, DropCleanable, TakeG, DropG]);
             cfg.action_menu = a.action_menu.clone().unwrap_or_else(|| vec![0, 1, 3, 4, 5]);
         },
+        // Many cleaning actions on one Cleaner (slot reuse inside the action map)
+        "cleanermany" => {
+            cfg.name = "cleanermany";
+            cfg.codes = codes(&[New, Drop, Collect, Register, Clean, DropCleanable]);
+            cfg.action_menu = a.action_menu.clone().unwrap_or_else(|| vec![0]);
+        },
         // Automatic collections on (Cc::new may collect)
         "auto" => {
             cfg.name = "auto";
